@@ -186,27 +186,37 @@ impl<T: ServiceStateActions + Send> ServiceManager<T> {
                 let pid = self.service.pid().ok_or(Error::PidNotSet)?;
                 let name = self.service.name();
 
-                if self
+                match self
                     .service_control
                     .get_process_pid(&self.service.bin_path())
-                    .is_ok()
                 {
-                    if self.verbosity != VerbosityLevel::Minimal {
-                        println!("Attempting to stop {}...", name);
+                    Ok(_) => {
+                        if self.verbosity != VerbosityLevel::Minimal {
+                            println!("Attempting to stop {}...", name);
+                        }
+                        self.service_control
+                            .stop(&name, self.service.is_user_mode())?;
+                        if self.verbosity != VerbosityLevel::Minimal {
+                            println!(
+                                "{} Service {} with PID {} was stopped",
+                                "✓".green(),
+                                name,
+                                pid
+                            );
+                        }
                     }
-                    self.service_control
-                        .stop(&name, self.service.is_user_mode())?;
-                    if self.verbosity != VerbosityLevel::Minimal {
-                        println!(
-                            "{} Service {} with PID {} was stopped",
-                            "✓".green(),
-                            name,
-                            pid
-                        );
+                    Err(ServiceError::ServiceProcessNotFound(_)) => {
+                        debug!("Service {name} was already stopped");
+                        if self.verbosity != VerbosityLevel::Minimal {
+                            println!("{} Service {} was already stopped", "✓".green(), name);
+                        }
                     }
-                } else if self.verbosity != VerbosityLevel::Minimal {
-                    debug!("Service {name} was already stopped");
-                    println!("{} Service {} was already stopped", "✓".green(), name);
+                    Err(err) => {
+                        // The lookup itself failed, so the process may still be alive: don't
+                        // record the service as stopped.
+                        error!("Failed to look up the process of service {name}: {err}");
+                        return Err(err.into());
+                    }
                 }
 
                 self.service.on_stop().await?;
@@ -229,17 +239,29 @@ impl<T: ServiceStateActions + Send> ServiceManager<T> {
 
     pub async fn remove(&mut self, keep_directories: bool) -> Result<()> {
         if let ServiceStatus::Running = self.service.status() {
-            if self
+            match self
                 .service_control
                 .get_process_pid(&self.service.bin_path())
-                .is_ok()
             {
-                error!(
-                    "Service {} is already running. Stop it before removing it",
-                    self.service.name()
-                );
-                return Err(Error::ServiceAlreadyRunning(vec![self.service.name()]));
-            } else {
+                Ok(_) => {
+                    error!(
+                        "Service {} is already running. Stop it before removing it",
+                        self.service.name()
+                    );
+                    return Err(Error::ServiceAlreadyRunning(vec![self.service.name()]));
+                }
+                Err(ServiceError::ServiceProcessNotFound(_)) => {}
+                Err(err) => {
+                    // The lookup itself failed, so the process may still be alive: don't
+                    // record the service as stopped.
+                    error!(
+                        "Failed to look up the process of service {}: {err}",
+                        self.service.name()
+                    );
+                    return Err(err.into());
+                }
+            }
+            {
                 // If the node wasn't actually running, we should give the user an opportunity to
                 // check why it may have failed before removing everything.
                 self.service.on_stop().await?;
